@@ -18,9 +18,10 @@ Record Defects := mkDefects {
   d4_panic_on_err : bool;     (* backend.go: panic(err) when a controller's Run returns an error *)
   d5_fatal_on_curve : bool;   (* controller.go: ui.Fatal on a curve evaluation error *)
   d13_exec_assert : bool;     (* util/exec.go: unchecked err.( *exec.ExitError) *)
+  d23_no_restore_after_init : bool;   (* controller.go Run: error return after a completed initialisation sequence without restorePwmEnabled *)
 }.
-Definition repaired : Defects := mkDefects false false false false false.
-Definition as_found : Defects := mkDefects true true true true true.
+Definition repaired : Defects := mkDefects false false false false false false.
+Definition as_found : Defects := mkDefects true true true true true true.
 
 Inductive wverdict := WOk | WRefused | WIgnored.
 Inductive rverdict := ROk | RFails | RGarbage | RPerm.
@@ -172,8 +173,9 @@ Proof.
 Qed.
 
 
-Definition d2_only : Defects := mkDefects true false false false false.
-Definition d3_only : Defects := mkDefects false true false false false.
-Definition d4_only : Defects := mkDefects false false true false false.
-Definition d5_only : Defects := mkDefects false false false true false.
-Definition d13_only : Defects := mkDefects false false false false true.
+Definition d2_only : Defects := mkDefects true false false false false false.
+Definition d3_only : Defects := mkDefects false true false false false false.
+Definition d4_only : Defects := mkDefects false false true false false false.
+Definition d5_only : Defects := mkDefects false false false true false false.
+Definition d13_only : Defects := mkDefects false false false false true false.
+Definition d23_only : Defects := mkDefects false false false false false true.
